@@ -10,6 +10,8 @@ Shares of a servermap: <shnum>:<server>:<seq>:<root>:<pre>:<offs>:<g|b> (sorted 
 `vm <k> share…` → `<best verinfo | ->  | <recoverable verinfos, sorted>` (ServerMap.best_recoverable_version);
 `rl <t|f> <k> share…` → `ok:<shnums used>` | `fail` (the Retrieve loop; t = a bad share drops its server, as the code did before /repo 280b4a6);
 `rd <t|f> <k> share… / share…` → `<verinfo>` | `fail` (download_best_version: first survey / complete map).
+`sc <v|c> <seq>:<root>:<salt>:<datalen>:<offs>:<g|b>…` → e|r per share (map update's signature cache; v = keyed on the whole
+verinfo as the code is, c = on seqnum/root/salt; g = the share's signature verifies for its prefix);
 `ds <c|f>:<verified salt>:<fetched salt>…` → the salt the segment is decrypted with (readers in activation order; c = cached reader) | `-`;
 `ot <c|i> <field>:<offset>…` → the offsets tuple inside verinfo (c = canonical/sorted, i = insertion order). -/
 open Tahoe.Drv Tahoe.Authentic
@@ -67,6 +69,21 @@ def handle : List String → String
       | .ok used => s!"ok:{if used.isEmpty then "-" else showNatList used}"
       | .fail => "fail"
     | _, _, _ => "bad-op"
+  | "sc" :: kv :: shares =>
+    let parse (t : String) : Option (SigIn Nat Bool) := match t.splitOn ":" with
+      | [a, b, c, d, e, g] => do
+        let good ← (if g == "g" then some true else if g == "b" then some false else none)
+        pure ⟨{ seqnum := ← a.toNat?, root := ← b.toNat?, salt := ← c.toNat?, k := 1, n := 1, segsize := 1, datalen := ← d.toNat? }, ← e.toNat?, good⟩
+      | _ => none
+    match shares.mapM parse with
+    | some xs =>
+      let stepOut {K : Type} [DecidableEq K] (key : Prefix Nat → Nat → K) : String :=
+        let (_, out) := xs.foldl (fun (acc : SigCache Nat K × String) x =>
+          let st' := gotSignature (fun _ s => s) key acc.1 x
+          (st', acc.2 ++ (if st'.entered.length = acc.1.entered.length then "r" else "e"))) ({ valid := [], entered := [] }, "")
+        if out.isEmpty then "-" else out
+      if kv == "v" then stepOut fullKey else if kv == "c" then stepOut coarseKey else "bad-op"
+    | none => "bad-op"
   | "ds" :: readers =>
     let parse (t : String) : Option (ReaderHdr Nat) := match t.splitOn ":" with
       | [c, v, f] => do
